@@ -154,15 +154,18 @@ impl Gossip {
         // have been dropped and we didn't clean up yet. In this case we'll ignore the existing
         // entry in "senders" and continue to create a new gossip session, overwriting the "dead"
         // entries.
+        //
+        // Checking the counter and incrementing it needs to happen in one atomic step: the last
+        // handle might get dropped concurrently, which already sent the unsubscribe request.
         if let Some((to_gossip_tx, from_gossip_tx, guard)) = self.senders.read().await.get(&topic)
-            && guard.has_subscriptions()
+            && let Some(guard) = guard.clone_if_subscribed()
         {
             return Ok(GossipHandle::new(
                 topic,
                 max_message_size,
                 to_gossip_tx.clone(),
                 from_gossip_tx.clone(),
-                guard.clone(),
+                guard,
             ));
         }
 
@@ -428,9 +431,26 @@ impl TopicDropGuard {
         self.counter.load(std::sync::atomic::Ordering::SeqCst)
     }
 
-    /// Returns true if there's still one or more references for this topic used.
-    fn has_subscriptions(&self) -> bool {
-        self.counter() >= INITIAL_COUNTER
+    /// Clone guard and increment the reference counter, but only if there's still at least one
+    /// other reference for this topic around.
+    ///
+    /// Returns `None` if the last reference has been dropped already (the unsubscribe request for
+    /// this topic is or will be on its way). Check and increment happen atomically.
+    fn clone_if_subscribed(&self) -> Option<Self> {
+        self.counter
+            .fetch_update(
+                std::sync::atomic::Ordering::SeqCst,
+                std::sync::atomic::Ordering::SeqCst,
+                |counter| (counter >= INITIAL_COUNTER).then_some(counter + 1),
+            )
+            .ok()?;
+
+        Some(Self {
+            topic: self.topic,
+            counter: self.counter.clone(),
+            actor_ref: self.actor_ref.clone(),
+            ignore_drop: false,
+        })
     }
 
     /// Clone guard, but don't increment reference counter.
